@@ -28,7 +28,9 @@ def _one(args):
         keys = [l.strip()[4:] for l in p.stdout.splitlines() if l.strip().startswith('key=')]
         rules = sorted({k.split(':')[0] for k in keys})
         return {'seed': name, 'status': 'detected' if p.returncode == 1 else ('silent' if p.returncode == 0 else 'check-error'),
-                'rules': rules, 'expected_missed': bool(meta.get('missed')), 'keys': keys[:4],
+                'rules': rules, 'keys': keys[:4],
+                # silent is expected for a documented miss, and for a seed of this property that another property's check catches
+                'expected_missed': bool(meta.get('missed')) or (bool(meta.get('detected_by')) and not any(x.startswith(pid) for x in meta['detected_by'])),
                 'negative': meta.get('property') == 'all'}
     finally:
         shutil.rmtree(tmp, ignore_errors=True)
